@@ -19,14 +19,14 @@ import (
 func init() { register("C10", "fault_enumeration", checkC10) }
 
 type gscen struct {
-	ID       string
-	Decomp   bool
-	Format   string // xz, lzma
+	ID                  string
+	Decomp              bool
+	Format              string // xz, lzma
 	Keep, Force, Stdout bool
-	Name     string
-	Input    string // small, big, empty, corrupt, truncated
-	Existing bool   // target pre-exists
-	Preset   string
+	Name                string
+	Input               string // small, big, empty, corrupt, truncated
+	Existing            bool   // target pre-exists
+	Preset              string
 }
 
 func (s gscen) String() string {
@@ -215,7 +215,7 @@ func c10Scenarios(c *ev.Ctx) []gscen {
 }
 
 func checkC10(c *ev.Ctx) {
-	c.SetRule("scenarios = {compress, decompress} x {xz, lzma} x flag sets over {-k,-f,-c} x file-name kinds (no / known / tar / unknown suffix) x inputs (small, 300 KiB incompressible, empty, corrupt, truncated) x target pre-existing or not. For each scenario the unmodified gxz binary runs under a ptrace syscall stepper: pass 0 records the M file-system syscalls touching the scenario directory (and stdout writes for -c); then for every i<=M: kill before i, kill after i, and fail i with each errno meaningful for that call (once and persistently). After every run the directory is compared with invariants I1-I6 of DESIGN 4/C10. distinct non-trivial = distinct (scenario, injection) runs")
+	c.SetRule("scenarios = {compress, decompress} x {xz, lzma} x flag sets over {-k,-f,-c} x file-name kinds (no / known / tar / unknown suffix) x inputs (small, 300 KiB incompressible, empty, corrupt, truncated) x target pre-existing or not. For each scenario the unmodified gxz binary runs under a ptrace syscall stepper: pass 0 records the M file-system syscalls touching the scenario directory (and stdout writes for -c); then for every i<=M: kill before i, kill after i, fail i with each errno meaningful for that call (once and persistently), and (never for -c runs) deliver SIGINT at i. After every run the directory is compared with invariants I1-I6 of DESIGN 4/C10. distinct non-trivial = distinct (scenario, injection) runs")
 	c.Assume("crash points are the instants between file-system syscalls observed by ptrace; power-loss durability (no fsync) is outside the property", "the stepper sees every relevant syscall: checked per scenario by the self-check on the record pass")
 	if gxzBinary() == "" {
 		c.Inconclusive("gxz binary not built (VERIF_GXZ unset)")
@@ -259,6 +259,11 @@ func checkC10(c *ev.Ctx) {
 		c.Count("syscalls_recorded", int64(len(rec.Events)))
 		for _, e := range rec.Events {
 			jobs = append(jobs, job{s, inject{Mode: "kill-before", N: e.I}}, job{s, inject{Mode: "kill-after", N: e.I}})
+			// SIGINT exercises the handler path (temporary file removed, exit 7).  Never for -c runs:
+			// as root the handler would unlink /dev/stdout (DESIGN 7a).
+			if !s.Stdout && (thorough(c) || i%6 == 0) {
+				jobs = append(jobs, job{s, inject{Mode: "signal", N: e.I, Errno: 2}})
+			}
 			for _, en := range errnoFor(e.Sys) {
 				jobs = append(jobs, job{s, inject{Mode: "fail", N: e.I, Errno: en}})
 				if e.Sys == "write" || e.Sys == "read" {
@@ -289,6 +294,12 @@ func checkC10(c *ev.Ctx) {
 		res := runGxz(c, dir, s.args(dir), j.inj, s.Stdout, nil)
 		snap := dirSnapshot(dir)
 		os.RemoveAll(dir)
+		if j.inj.Mode == "signal" && res.RunErr == "" && res.Exit < 0 {
+			// the stepper lost the exit status of a process that died from the signal
+			// (default disposition, before gxz installed its handler): same as killed
+			res.Killed = true
+			res.Exit = 130
+		}
 		if res.RunErr != "" || res.Exit < 0 {
 			c.Inconclusive(fmt.Sprintf("run %s of %s: %s", j.inj, s, res.RunErr))
 			return
@@ -335,7 +346,8 @@ func checkC10(c *ev.Ctx) {
 				viol("I1-target-is-input", "gxz renamed its output over the input path")
 			}
 		}
-		if res.Killed {
+		if res.Killed || (j.inj.Mode == "signal" && res.Exit >= 128) {
+			// SIGKILL, or SIGINT before the handler was installed (default disposition)
 			c.Count("killed_runs", 1)
 			return
 		}
@@ -357,6 +369,18 @@ func checkC10(c *ev.Ctx) {
 			if strings.HasSuffix(n, ".compress") || strings.HasSuffix(n, ".decompress") {
 				viol("I5-temp-file-left", fmt.Sprintf("temporary file %s remains after the run (exit %d, %s)", n, res.Exit, j.inj))
 			}
+		}
+		if j.inj.Mode == "signal" {
+			// An interrupted run is neither one of the failures the statement lists nor a
+			// success: only I1, I2 and I5 are demanded of it.  (Observed, outside the
+			// property: a SIGINT racing with the end of the run can make the handler
+			// goroutine dereference the already cleared file and crash with exit 2 after
+			// the work was completed; counted below, not a verdict.)
+			c.Count("signal_runs_not_killed", 1)
+			if strings.Contains(res.Stderr, "panic:") {
+				c.Count("signal_runs_with_handler_panic_observed", 1)
+			}
+			return
 		}
 		if res.Exit != 0 {
 			// I3
